@@ -25,9 +25,15 @@ def _mkfds(fnames, tags):
         for t in tags:
             def payload(_t=t):
                 return _t
-            fd = specs.get_function_definition(payload, name=f)
+            fd = specs.get_function_definition(payload, name=FSPELL[f][0] if f in FSPELL else f)
             fds[(f, t)] = fd
     return fds
+
+
+# model function name -> spellings of one registered name: (as registered, use_convention?) - the contexts carry the camelCase
+# convention, so the Python spelling looked up "by convention" is the same function
+FSPELL = {'f': ('fX', [('fX', False), ('f_x', True), ('fX', True), ('fX_', False)]),
+          'g': ('gLongName', [('gLongName', False), ('g_long_name', True), ('g_long_name_', True)])}
 
 
 class Real(object):
@@ -46,12 +52,13 @@ class Real(object):
         op = e['op']
         err = 'ok'
         try:
+            from yaql.language import conventions
             if op == 'NewContext':
-                self.objs[e['new']] = contexts.Context(self.objs.get(e['c']))
+                self.objs[e['new']] = contexts.Context(self.objs.get(e['c']), convention=conventions.CamelCaseConvention())
             elif op == 'NewMulti':
-                self.objs[e['new']] = contexts.MultiContext([self.objs[m] for m in e['ms']])
+                self.objs[e['new']] = contexts.MultiContext([self.objs[m] for m in e['ms']], convention=conventions.CamelCaseConvention())
             elif op == 'NewLinked':
-                self.objs[e['new']] = contexts.LinkedContext(self.objs.get(e['c']), self.objs[e['l']])
+                self.objs[e['new']] = contexts.LinkedContext(self.objs.get(e['c']), self.objs[e['l']], convention=conventions.CamelCaseConvention())
             elif op == 'Child':
                 try:
                     ch = self.objs[e['c']].create_child_context()
@@ -111,16 +118,21 @@ class Real(object):
                 o['funcs'][f] = {}
                 o['collect'][f] = {}
                 for k in self.keeps():
-                    try:
-                        fs, ex_ = c.get_functions(f, lambda fd, _k=k: self.tagof[id(fd)] in _k)
-                        o['funcs'][f][k] = (frozenset(self.tagof[id(x)] for x in fs), bool(ex_))
-                    except Exception as ex:
-                        o['funcs'][f][k] = 'raise:' + type(ex).__name__
-                    try:
-                        ls = c.collect_functions(f, lambda fd, ctx, _k=k: self.tagof[id(fd)] in _k)
-                        o['collect'][f][k] = tuple(frozenset(self.tagof[id(x)] for x in layer) for layer in ls)
-                    except Exception as ex:
-                        o['collect'][f][k] = 'raise:' + type(ex).__name__
+                    got_f = set()
+                    got_c = set()
+                    for nm, conv in (FSPELL[f][1] if f in FSPELL else [(f, False)]):
+                        try:
+                            fs, ex_ = c.get_functions(nm, lambda fd, _k=k: self.tagof[id(fd)] in _k, use_convention=conv)
+                            got_f.add((frozenset(self.tagof[id(x)] for x in fs), bool(ex_)))
+                        except Exception as ex:
+                            got_f.add('raise:' + type(ex).__name__)
+                        try:
+                            ls = c.collect_functions(nm, lambda fd, ctx, _k=k: self.tagof[id(fd)] in _k, use_convention=conv)
+                            got_c.add(tuple(frozenset(self.tagof[id(x)] for x in layer) for layer in ls))
+                        except Exception as ex:
+                            got_c.add('raise:' + type(ex).__name__)
+                    o['funcs'][f][k] = got_f.pop() if len(got_f) == 1 else 'spellings-disagree:%s' % sorted(map(repr, got_f))
+                    o['collect'][f][k] = got_c.pop() if len(got_c) == 1 else 'spellings-disagree:%s' % sorted(map(repr, got_c))
             out[cid] = o
         return out
 
